@@ -403,7 +403,8 @@ def run(pid, tier, replay_file=None):
         from checks_doc import _kwsig
         dstates, dinfo = df.stage1(tier)
         if tier == "quick":
-            dstates = [s for s in dstates if s.get("src") != "sim"] + [s for s in dstates if s.get("src") == "sim"][:2500]
+            dstates = [s for s in dstates if s.get("src") == "bfs"][::2] + [s for s in dstates if s.get("src") == "seed"] \
+                      + [s for s in dstates if s.get("src") == "sim"][:800]
         sweeps = drive.pmap(sweep_state, dstates, chunksize=16)
         n = 0
         for st, sw in zip(dstates, sweeps):
